@@ -61,6 +61,8 @@ pub fn read_async(name: &str, data: &Arc<Vec<u8>>, doc: &Doc, script: &PollScrip
     }
     let src = AdvAsyncRead::new(data.clone(), script);
     let stats = src.stats.clone();
+    // a second source under the same script for drivers that read the input twice (gff)
+    let src2 = if name == "gff" { Some(AdvAsyncRead::new(data.clone(), script)) } else { None };
     let rt = runtime();
     let workers = NonZero::new(workers.clamp(1, 8)).unwrap();
     let mut t: Transcript = Vec::new();
@@ -364,6 +366,26 @@ pub fn read_async(name: &str, data: &Arc<Vec<u8>>, doc: &Doc, script: &PollScrip
                         Err(e) => {
                             t.push(err_ev("record", &e));
                             break;
+                        }
+                    }
+                }
+                // second pass: the owned views (`line_bufs()` stream), as in the sync half
+                if let Some(src2) = src2 {
+                    use futures::TryStreamExt;
+                    let mut r2 = gff::r#async::io::Reader::new(BufReader::new(src2));
+                    let mut lbs = r2.line_bufs();
+                    loop {
+                        match lbs.try_next().await {
+                            Ok(None) => break,
+                            Ok(Some(lb)) => {
+                                if !push(&mut t, opts, Ev::Record(format!("LB:{lb:?}"))) {
+                                    break;
+                                }
+                            }
+                            Err(e) => {
+                                t.push(err_ev("line-buf", &e));
+                                break;
+                            }
                         }
                     }
                 }
